@@ -105,6 +105,7 @@ PROPS = {
                     {"tool": "vprobe", "stream": "kernel", "profile": "load", "quick": 20, "thorough": 300, "args": ["-profile", "load"]},
                     {"tool": "vprobe", "stream": "kernel", "profile": "par", "quick": 40, "thorough": 500, "args": ["-profile", "par"]}],
         "trusted": CBPF_TRUST + ["the kernel's classic-BPF interpreter, checker and action handling (Model/Raw.lean: runRaw, kernelAccepts; Proofs/C08.lean: outcome) are modelled, not verified; validated against the running kernel (6.18) on every run",
+                                 "the kernel's loop over a chain of filters (Model/Chain.lean: keep the value with the smallest signed action part, newest filter first) is modelled, not verified; validated live: one decide case in three loads a second policy on top of the first and the kernel's answers are compared with Chain.chain",
                                  "x/net bpf.Assemble for the four instruction kinds is modelled by `encode` (raw stream: exact equality)"],
         "assumptions": ["decisions are observed for harmless probe syscalls only (they ignore their registers), on x86_64, on the host kernel",
                         "kill_thread / trap / trace actions are covered at model level (outcome_classes) but not exercised live (a killed runtime thread hangs a Go child)"],
